@@ -94,7 +94,7 @@ class Template(Evaluatable[str]):
         for val in self.params.values():
             val.validate(options)
 
-        for key in find_template_keys(self.template):
+        for key in sorted(find_template_keys(self.template)):
             if TEMPLATE_PARAM.match(key):
                 continue
             try:
@@ -107,7 +107,7 @@ class Template(Evaluatable[str]):
         from .option import Option
 
         keys = set().union(*(value.keys(options) for value in self.params.values()))
-        for key in find_template_keys(self.template):
+        for key in sorted(find_template_keys(self.template)):
             if TEMPLATE_PARAM.match(key):
                 continue
             try:
@@ -123,7 +123,7 @@ class Template(Evaluatable[str]):
 
         options = options or {}
         keys = set().union(*(value.explain(options) for value in self.params.values()))
-        for key in find_template_keys(self.template):
+        for key in sorted(find_template_keys(self.template)):
             if TEMPLATE_PARAM.match(key):
                 continue
 
